@@ -1,3 +1,233 @@
-/- C10 property theorems (not written yet) -/
+/-
+C10 — configured form limits are enforced and are pure guards.
+Property theorems only (helper lemmas live in Lemmas/FormLimits.lean).
+
+Model: the decoder / parser of Model/Multipart.lean with `max_form_memory_size` (`maxMem`) and
+`max_parts` (`maxParts`) as parameters, and `_parse_urlencoded` of Model/Urlencode.lean.
+`Reach d0 d evs` = `d` is obtained from `d0` by any sequence of non-raising `receive_data` /
+`next_event` calls (the two public mutators), `evs` the events delivered on the way.
+Declared-length decisions (Content-Length vs max_content_length) belong to C09's model and are covered
+here by the stream oracle only.
+-/
+import WzVerif.Lemmas.FormLimits
 namespace Wz.Props.C10
+open Wz Wz.Multipart Wz.Urlencode
+
+/-! ### buffer -/
+
+/-- `receive_data` either raises or leaves at most `max_form_memory_size` bytes in the buffer. -/
+theorem receive_respects_limit {d d' : Decoder} {c : Bytes} {m : Nat} (hm : d.maxMem = some m)
+    (h : receive d (some c) = .ok d') : d'.buffer.length ≤ m ∧ d'.maxMem = some m := by
+  simp only [receive, hm] at h
+  split at h
+  · simp at h
+  · rename_i hle
+    simp at h; subst h
+    simp only [gt_iff_lt, Nat.not_lt, List.length_append] at hle ⊢
+    exact And.intro hle trivial
+
+/-- ... and it raises `RequestEntityTooLarge` exactly when the chunk does not fit. -/
+theorem receive_raises_iff {d : Decoder} {c : Bytes} {m : Nat} (hm : d.maxMem = some m) :
+    receive d (some c) = .error "RequestEntityTooLarge" ↔ d.buffer.length + c.length > m := by
+  simp only [receive, hm]
+  split <;> simp_all
+
+/-- `next_event` never grows the buffer (and never touches the limits). -/
+theorem nextEvent_never_grows {d d' : Decoder} {ev : Event} (h : nextEvent d = .ok (ev, d')) :
+    d'.buffer.length ≤ d.buffer.length ∧ d'.maxMem = d.maxMem ∧ d'.maxParts = d.maxParts := by
+  rcases step_ok (nextEvent_ok h) with ⟨⟨_, h2, h3⟩, hb, _⟩
+  exact ⟨hb, h2, h3⟩
+
+/-- **buffer_bounded.** For every sequence of `receive_data` / `next_event` calls on a decoder
+created with `max_form_memory_size = m`, the buffer never holds more than `m` bytes. -/
+theorem buffer_bounded {bnd : Bytes} {m : Nat} {mp : Option Nat} {d : Decoder} {evs : List Event}
+    (h : Reach (mkDecoder bnd (some m) mp) d evs) : d.buffer.length ≤ m :=
+  (reach_invariant h).2.1 m rfl (by simp [mkDecoder])
+
+/-- the chunk loop of the model (`decodeChunks`: every chunk list) only visits reachable
+configurations, so the bound holds in particular after every chunk list -/
+theorem buffer_bounded_decodeChunks (bnd : Bytes) (m : Nat) (mp : Option Nat) (chunks : List Bytes) :
+    (decodeChunks bnd (some m) mp chunks).dec.buffer.length ≤ m := by
+  rcases reach_feedAll chunks _ [] (Reach.init (d0 := mkDecoder bnd (some m) mp)) with ⟨evs, h, _⟩
+  exact buffer_bounded h
+
+example : (receive (mkDecoder [98] (some 3) none) (some [1, 2, 3])).toOption.isSome = true ∧
+    (receive (mkDecoder [98] (some 3) none) (some [1, 2, 3, 4])).toOption.isSome = false := by
+  decide +kernel
+
+/-! ### parts -/
+
+/-- **parts_bounded.** For every operation sequence on a decoder created with `max_parts = k`, at
+most `k` Field/File events are ever delivered (the counter equals the number of such events). -/
+theorem parts_bounded {bnd : Bytes} {mm : Option Nat} {k : Nat} {d : Decoder} {evs : List Event}
+    (h : Reach (mkDecoder bnd mm (some k)) d evs) :
+    countParts evs = d.partsDecoded ∧ countParts evs ≤ k := by
+  rcases reach_invariant h with ⟨_, _, hp, hq⟩
+  have h0 : (mkDecoder bnd mm (some k)).partsDecoded = 0 := rfl
+  rw [h0] at hp hq
+  have := hq k rfl (Nat.zero_le _)
+  omega
+
+/-- for every chunk list: the run reports at most `k` parts -/
+theorem parts_bounded_decodeChunks (bnd : Bytes) (mm : Option Nat) (k : Nat) (chunks : List Bytes) :
+    countParts (decodeChunks bnd mm (some k) chunks).events ≤ k := by
+  rcases reach_feedAll chunks _ [] (Reach.init (d0 := mkDecoder bnd mm (some k))) with ⟨evs, h, hc⟩
+  have := (parts_bounded h).2
+  simp [countParts] at hc
+  simp only [decodeChunks]
+  simp only [countParts] at this ⊢
+  omega
+
+/-- non-vacuity: two parts with `max_parts = 1` raise, with `max_parts = 2` they are delivered -/
+example :
+    (decodeChunks (str "b") none (some 1)
+      [str "--b\r\nContent-Disposition: form-data; name=\"a\"\r\n\r\n1\r\n--b\r\nContent-Disposition: form-data; name=\"c\"\r\n\r\n2\r\n--b--\r\n"]).err
+      = some "RequestEntityTooLarge" ∧
+    countParts (decodeChunks (str "b") none (some 2)
+      [str "--b\r\nContent-Disposition: form-data; name=\"a\"\r\n\r\n1\r\n--b\r\nContent-Disposition: form-data; name=\"c\"\r\n\r\n2\r\n--b--\r\n"]).events
+      = 2 := by
+  decide +kernel
+
+/-! ### accumulated field size -/
+
+/-- **field_bounded (invariant).** While `MultiPartParser.parse` processes events under
+`max_form_memory_size = m`, the payload accumulated for the current non-file part equals the running
+`field_size` and is at most `m`; every field value is therefore built from at most `m` bytes. -/
+theorem field_bounded {m : Nat} (evs : List Event) {st st' : FormState}
+    (h : formEvents (some m) st evs = .ok st') (hok : st.FieldOk m) : st'.FieldOk m := by
+  induction evs generalizing st with
+  | nil => simp [formEvents] at h; subst h; exact hok
+  | cons ev t ih =>
+    simp only [formEvents] at h
+    cases he : formEvent (some m) st ev with
+    | error e => rw [he] at h; simp at h
+    | ok st2 => rw [he] at h; exact ih h (formEvent_fieldOk he hok)
+
+/-- the initial parser state satisfies the invariant -/
+theorem field_bounded_init (m : Nat) : ({} : FormState).FieldOk m := by
+  intro p hp; simp at hp
+
+/-- **field_bounded (guard).** A Data event that would take a non-file field above the limit raises
+`RequestEntityTooLarge` (413), however the field was spread over earlier Data events. -/
+theorem field_too_large_raises {m : Nat} {st : FormState} {p : Part} {x : Bytes} {more : Bool}
+    (hok : st.FieldOk m) (hcur : st.cur = some p) (hf : p.isFile = false)
+    (hbig : (p.payload ++ x).length > m) :
+    formEvent (some m) st (.data x more) = .error "RequestEntityTooLarge" := by
+  rcases hok p hcur hf with ⟨hsz, _⟩
+  simp only [formEvent, fieldSizeStep, hsz]
+  have : p.payload.length + x.length > m := by simpa using hbig
+  simp [this]
+
+example :
+    (match formEvents (some 3) {} [.field (some ['a']) [], .data [1, 2] true, .data [3, 4] false] with
+      | .error e => e == "RequestEntityTooLarge" | .ok _ => false) = true ∧
+    (match formEvents (some 4) {} [.field (some ['a']) [], .data [1, 2] true, .data [3, 4] false] with
+      | .error _ => false | .ok st => st.fields.length == 1) = true := by
+  decide +kernel
+
+/-! ### limits are pure guards -/
+
+/-- **limits_pure_guard (decoder).** For every chunk sequence: if decoding with limits does not
+raise, decoding without limits delivers exactly the same events (and does not raise either). -/
+theorem limits_pure_guard (bnd : Bytes) (mm mp : Option Nat) (chunks : List Bytes)
+    (h : (decodeChunks bnd mm mp chunks).err = none) :
+    (decodeChunks bnd none none chunks).events = (decodeChunks bnd mm mp chunks).events ∧
+    (decodeChunks bnd none none chunks).err = none := by
+  have hu : unl (mkDecoder bnd mm mp) = mkDecoder bnd none none := rfl
+  have := feedAll_unl chunks (mkDecoder bnd mm mp) h
+  rw [hu] at this
+  simp only [decodeChunks]
+  rw [this]
+  exact ⟨rfl, h⟩
+
+/-- **limits_pure_guard (parser).** For every body, buffer size and read schedule: if
+`MultiPartParser.parse` succeeds under limits, it returns the same fields and files without limits. -/
+theorem limits_pure_guard_form (bnd : Bytes) (mm mp : Option Nat) (bufSize : Nat) (sched : List Nat)
+    (body : Bytes) {r : List (Option Multipart.Str × Multipart.Str) × List FileItem}
+    (h : formParse bnd mm mp bufSize sched body = .ok r) :
+    formParse bnd none none bufSize sched body = .ok r := by
+  unfold formParse at h ⊢
+  simp only at h ⊢
+  cases hl : formLoop mm (mkDecoder bnd mm mp) {} ((readChunks bufSize body.length sched body).map some ++ [none]) with
+  | error e => rw [hl] at h; simp at h
+  | ok st =>
+    rw [hl] at h
+    simp at h; subst h
+    rcases formLoop_unl _ hl (st' := {}) ⟨rfl, rfl, rfl⟩ with ⟨st', hl', _, hf, hg⟩
+    have hu : unl (mkDecoder bnd mm mp) = mkDecoder bnd none none := rfl
+    rw [hu] at hl'
+    rw [hl']
+    simp [hf, hg]
+
+example :
+    (decodeChunks (str "b") (some 70) (some 1)
+      [str "--b\r\nContent-Disposition: form-data; name=\"a\"\r\n\r\n1\r\n--b--\r\n"]).err = none := by
+  decide +kernel
+
+/-! ### url-encoded bodies: bounded read (as repaired by ad90b07) -/
+
+/-- **urlencoded_read_bounded.** With `max_form_memory_size = m`, `_parse_urlencoded` takes at most
+`m + 1` bytes from the stream, for every body and every short-read schedule. -/
+theorem urlencoded_read_bounded (m : Nat) (cl : Option Nat) (sched : List Nat) (body : Bytes) :
+    (urlencodedRead (some m) cl sched body).2 ≤ m + 1 := by
+  simp only [urlencodedRead]
+  cases declaredTooLarge m cl with
+  | true => simp
+  | false =>
+    have := boundedLoop_taken (m + 2) (m + 1) sched body []
+    simpa using this
+
+/-- **urlencoded_accepts_iff.** Unless the declared length already exceeds the limit, the body is
+accepted iff its actual length is at most `m` (whatever was or was not declared), and what is
+accepted is the whole body. -/
+theorem urlencoded_accepts_iff (m : Nat) (cl : Option Nat) (sched : List Nat) (body : Bytes)
+    (hcl : ∀ n, cl = some n → n ≤ m) :
+    (urlencodedRead (some m) cl sched body).1 =
+      if body.length ≤ m then .ok body else .error "RequestEntityTooLarge" := by
+  have hc : declaredTooLarge m cl = false := by
+    cases cl with
+    | none => rfl
+    | some n => have := hcl n rfl; simp [declaredTooLarge]; omega
+  simp only [urlencodedRead, hc, Bool.false_eq_true, if_false]
+  rw [boundedLoop_result (m + 2) (m + 1) sched body [] (by omega)]
+  by_cases h : body.length ≤ m
+  · rw [if_pos (by omega), if_pos h]; simp
+  · rw [if_neg (by omega), if_neg h]
+
+/-- a declared length above the limit is refused before anything is read -/
+theorem urlencoded_declared_too_large (m n : Nat) (sched : List Nat) (body : Bytes) (h : n > m) :
+    urlencodedRead (some m) (some n) sched body = (.error "RequestEntityTooLarge", 0) := by
+  simp [urlencodedRead, declaredTooLarge, h]
+
+/-- F10 regression: 5002 bytes of body, no declared length, limit 100: refused after 101 bytes -/
+example : (urlencodedRead (some 100) none [] (List.replicate 5002 97)).1.toOption = none ∧
+    (urlencodedRead (some 100) none [] (List.replicate 5002 97)).2 = 101 ∧
+    (urlencodedRead (some 100) none [] (List.replicate 100 97)).1.toOption = some (List.replicate 100 97) := by
+  decide +kernel
+
+/-- **limits_pure_guard (url-encoded).** If parsing under the limit succeeds, parsing without limit
+gives the same items. -/
+theorem limits_pure_guard_urlencoded (m : Nat) (cl : Option Nat) (sched : List Nat) (body : Bytes)
+    {r : List (Urlencode.Str × Urlencode.Str)}
+    (h : parseUrlencoded (some m) cl sched body = .ok r) :
+    parseUrlencoded none cl sched body = .ok r := by
+  unfold parseUrlencoded at h ⊢
+  cases hr : (urlencodedRead (some m) cl sched body).1 with
+  | error e => rw [hr] at h; simp at h
+  | ok data =>
+    rw [hr] at h
+    have hdata : data = body := by
+      simp only [urlencodedRead] at hr
+      cases hd : declaredTooLarge m cl with
+      | true => rw [hd] at hr; simp at hr
+      | false =>
+        rw [hd] at hr
+        simp only [Bool.false_eq_true, if_false] at hr
+        rw [boundedLoop_result (m + 2) (m + 1) sched body [] (by omega)] at hr
+        split at hr
+        · simp at hr; exact hr.symm
+        · simp at hr
+    subst hdata
+    simpa [urlencodedRead] using h
+
 end Wz.Props.C10
